@@ -25,7 +25,7 @@ type WireCase struct {
 
 var pathStrings = []string{"abc", "a b", "x&y=z", "50%", "q?r#s", "é☃", "+plus+", "a;b,c", "~tilde", "0", "-", "..x", "colon:semi", "@at", "$d", "(p)", "*star", "'q'", "%2F", "a%20b"}
 var headerStrings = []string{"abc", "a b", "with;semi=colon", "comma,separated", "\"quoted\"", "tab-free value", "x", "0", "UPPER lower", "key=value; other=1", "~!@#$%^&*()_+"}
-var queryStrings = []string{"", "abc", "a b", "a&b=c", "50%", "q?r#s", "é☃\U0001F600", "+plus+", "a;b", "new\nline", "\"quoted\"", "a/b/c", "%2F"}
+var queryStrings = []string{"", "abc", "a b", "a&b=c", "50%", "q?r#s", "é☃\U0001F600", "+plus+", "a;b", "new\nline", "\"quoted\"", "a/b/c", "%2F", "a,b", "Doe, John", ","}
 
 // fixDomain brings a random Params value into the domain of C09 (DESIGN §11): path values non-empty,
 // '/'-free and not "." / ".."; header values visible ASCII with inner spaces only; arrays non-empty.
